@@ -358,23 +358,30 @@ func (b *gwsGRPCWebHandler) OnMessage(socket *gws.Conn, message *gws.Message) {
 	}
 
 	var event gwsReadEvent
+	deliver := true
 
-	// handle flow control byte
-	if len(data) > 0 {
-		stream.closed = data[0] == 1
-	} else {
+	switch {
+	case len(data) == 0:
 		event.err = status.Error(codes.InvalidArgument, "expected flow control byte")
+	case len(data) == 1:
+		// just the flow control byte
+		stream.closed = data[0] == 1
+		deliver = false
+	case len(data) < 6:
+		stream.closed = data[0] == 1
+		event.err = status.Error(codes.InvalidArgument, "expected length-prefixed message header")
+	default:
+		// handle length-prefixed message, but length doesn't actually matter for websockets.
+		// the message itself can be empty, in which case only the flow control byte and the header are present.
+		stream.closed = data[0] == 1
+		event.data = data[6:]
 	}
 
-	// handle length-prefixed message, but length doesn't actually matter for websockets
-	if len(data) > 6 {
-		event.data = data[6:]
+	if deliver {
 		select {
 		case stream.events <- event: // events closed only by OnMessage, so no panic will occur here
 		case <-stream.done:
 		}
-	} else if event.err == nil && len(data) != 1 {
-		event.err = status.Error(codes.InvalidArgument, "expected length-prefixed message header")
 	}
 
 	if stream.closed {
